@@ -611,6 +611,13 @@ def fam_rc(P, n, tier):
         kind = P.choice([0, 1, 2, 3])
         uns = kind in (1, 3) and P.chance(0.4)
         vars = [rand_var(P, access=RW, odd_sizes=0, maxbuf=4) for _ in range(P.choice([0, 0, 1, 2]))]
+        zero_size = kind == 0 and i % 4 == 1
+        if zero_size:
+            # WRITE where a variable's write callback is told size 0 (an empty string, a read-only variable)
+            # and rejects it: still a failure
+            vars = [Var(BUFSTR, P.choice([1, 3, 5]), P.choice([RW, RW, RO])), rand_var(P, access=RW, odd_sizes=0, maxbuf=4)]
+            if P.chance(0.5):
+                vars.append(rand_var(P, access=P.choice([RO, RW]), types=(UINT, INT, HEX), odd_sizes=0))
         c = Cmd('+C', w=(kind == 0), r=(kind == 1), run=(kind == 2), t=(kind == 3), vars=vars,
                 descr=P.choice([None, 'dd']))
         c2 = Cmd('+OTHER', run=True, r=True, vars=[Var(UINT, 1, RW, init=b'\x07')])
@@ -630,15 +637,18 @@ def fam_rc(P, n, tier):
             rs.append(Res(cd, edit))
         sc.script(kind, c.ci, 0, rs)
         for vi, v in enumerate(vars):
-            if P.chance(0.3):
+            if P.chance(0.3) or (zero_size and (vi == 0 or v.access == RO)):
                 v.hread = v.hwrite = True
                 sc.script(4, c.ci, vi, [Res(P.choice([0, 0, 1, -1])) for _ in range(3)])
-                sc.script(5, c.ci, vi, [Res(P.choice([0, 0, 1, -1])) for _ in range(3)])
+                sc.script(5, c.ci, vi, [Res(P.choice([0, 1, 1, -1])) for _ in range(3)] if zero_size else [Res(P.choice([0, 0, 1, -1])) for _ in range(3)])
         sched(P, sc, style=P.choice(['eager', 'rand']))
         if uns:
             sc.op('t %d %d' % (c.ci, T_READ if kind == 1 else T_TEST))
         else:
-            line = {0: 'AT+C=' + ','.join(arg_text(P, v) for v in vars), 1: 'AT+C?', 2: 'AT+C', 3: 'AT+C=?'}[kind]
+            wargs = [arg_text(P, v) for v in vars]
+            if zero_size:
+                wargs[0] = '""'
+            line = {0: 'AT+C=' + ','.join(wargs), 1: 'AT+C?', 2: 'AT+C', 3: 'AT+C=?'}[kind]
             sc.feed(line + P.choice(['\n', '\r\n']))
         sc.service(P.randint(20, 200))
         sc.op('h')
